@@ -96,18 +96,13 @@ static void run_op(const std::vector<std::string> &w, const std::string &, out &
             o.tag("too-small");
             // (C04 itself only speaks about buffers that are large enough; this is C05's overflow clause,
             // kept here because the stream contains such cases.)  The frame must be reported as overflow
-            // and must not be delivered.  The configurable receiver hunts for a start marker after the
-            // overflow, so nothing at all may be delivered.  The legacy receiver has no hunt state
-            // (recorded finding C05-legacy-no-hunt, judged by C05's strict probes): after the OVERFLOW it
-            // accumulates the rest of the frame, and when the CRC-8 of those few bytes happens to be 0
-            // (1 case in 256) the stop marker completes a bogus short packet.  That is the finding's
-            // input class, not a new violation: for `leg` only a packet completed BEFORE the overflow
-            // report (= the frame itself delivered) fails here.
+            // and nothing of it may be delivered - by any receiver.  (Until `fix: legacy gstuff receiver
+            // hunts for the start marker` the legacy receiver accumulated the rest of the frame after the
+            // OVERFLOW and in 1 case of 256 completed a bogus short packet; that was defect
+            // C05-legacy-no-hunt and is repaired, so `leg` is judged like the others.)
             size_t po = t.sts.find('O'), pn = t.sts.find('N');
-            if (po == std::string::npos || (pn != std::string::npos && (codec != "leg" || pn < po)))
+            if (po == std::string::npos || pn != std::string::npos)
                 o.fail("frame that does not fit was not reported as overflow / was delivered");
-            else if (pn != std::string::npos)
-                o.tag("legacy-packet-after-overflow");
         }
         return;
     }
